@@ -89,6 +89,48 @@ func (p *Program) LookupType(name string, rel *types.Package) (types.Type, error
 			return tn.Type(), nil
 		}
 	}
+	if strings.HasPrefix(name, "fieldtype(") && strings.HasSuffix(name, ")") {
+		// fieldtype(T.f): the declared type of field f of struct type T (a way to name anonymous types)
+		inner := name[len("fieldtype(") : len(name)-1]
+		i := strings.LastIndex(inner, ".")
+		if i < 0 {
+			return nil, fmt.Errorf("fieldtype(%s): want fieldtype(T.f)", inner)
+		}
+		ot, err := p.LookupType(inner[:i], rel)
+		if err != nil {
+			return nil, err
+		}
+		st, ok := ot.Underlying().(*types.Struct)
+		if !ok {
+			return nil, fmt.Errorf("fieldtype(%s): %s is not a struct", inner, inner[:i])
+		}
+		for fi := 0; fi < st.NumFields(); fi++ {
+			if st.Field(fi).Name() == inner[i+1:] {
+				return st.Field(fi).Type(), nil
+			}
+		}
+		return nil, fmt.Errorf("fieldtype(%s): no such field", inner)
+	}
+	if strings.HasPrefix(name, "elem(") && strings.HasSuffix(name, ")") {
+		// elem(X): the element type of a map, slice, array, pointer or channel type
+		xt, err := p.LookupType(name[len("elem(") : len(name)-1], rel)
+		if err != nil {
+			return nil, err
+		}
+		switch tt := xt.Underlying().(type) {
+		case *types.Map:
+			return tt.Elem(), nil
+		case *types.Slice:
+			return tt.Elem(), nil
+		case *types.Array:
+			return tt.Elem(), nil
+		case *types.Pointer:
+			return tt.Elem(), nil
+		case *types.Chan:
+			return tt.Elem(), nil
+		}
+		return nil, fmt.Errorf("%s: no element type", name)
+	}
 	pkgName, tname := "", name
 	if i := strings.LastIndex(name, "."); i >= 0 {
 		pkgName, tname = name[:i], name[i+1:]
